@@ -61,6 +61,11 @@ func (p *Parser) nextToken() error {
 	}
 
 	token, err := p.lexer.NextToken()
+	// Comments count as whitespace: they never reach the lookahead, so that
+	// "num gen R" is recognised with comments between its parts too.
+	for err == nil && token.Type == TokenComment {
+		token, err = p.lexer.NextToken()
+	}
 	if err != nil {
 		return err
 	}
